@@ -74,6 +74,10 @@ var c03SDLAdversarial = []string{
 	`directive @a(x: Int = "s") on OBJECT`, `directive @a @a on OBJECT`, `directive @a on OBJECT directive @b(x: Int @a) on OBJECT`, `scalar`, `scalar S @deprecated(reason: 3)`,
 	`type Query { f(a: Int = [1]): Int }`, `type Query { f: [Int }`, `type Query { f: Int] }`, `type Query { __f: Int }`, `type __Q { f: Int }`, `type 1Q { f: Int }`, `"desc" "desc2" type Q { f: Int }`,
 	`""" unterminated`, `type Query { f: Int @go(type: 3) }`, `type Query @go { f: Int }`, `interface I { f: Int } type Query implements I { f: String }`, `type Query { f: Query } schema { query: Query query: Query }`,
+	// input types that require each other: loops of non-null input fields, entered from a type outside the loop, from inside, through lists
+	`input A { b: B! } input B { c: C! } input C { b: B! } type Query { f(a: A): Int }`, `input A { b: B! } input B { a: A! } type Query { f(a: A): Int }`,
+	`input Out { a: A! } input A { b: B! } input B { c: C! } input C { d: D! } input D { b: B! } type Query { f(o: Out): Int }`, `input A { b: [B!]! } input B { a: [A!]! c: C! } input C { c: C } type Query { f(a: A): Int }`,
+	`input A { a: A! }`, `input A { b: B! x: Int } input B { c: C! } input C { a: A! b: B! } type Query { f(c: C = {}): Int }`,
 	`extend enum Nope { A }`, `extend union Nope = A`, `extend input Nope { a: Int }`, `extend interface Nope { a: Int }`, `extend scalar S @d`, `type Query { a: Int } extend type Query @nope { b: Int }`,
 }
 
